@@ -257,9 +257,45 @@ def source_kinds():
     return out
 
 
+def consumer_state_untouched():
+    """"the consumer's own state is unaffected between items and after the stream ends or is abandoned": what the generator
+    body looks up (also types nobody supplies, resolved by default construction) leaves the consumer's lookups - with and
+    without an explicit default - as they were before the stream."""
+    out = []
+
+    class Settings(State):
+        mode: str = "builtin"
+    fallback = Settings(mode="consumer-fallback")
+
+    async def numbers():
+        for i in range(3):
+            ctx.state(Settings)           # a type no scope supplies: default-constructed for the generator
+            yield i
+
+    async def main():
+        for how in ("consumed to the end", "abandoned after one item"):
+            async with ctx.scope("creator", S(v=1)):
+                stream = ctx.stream(numbers)
+            async with ctx.scope("consumer", S(v=2)):
+                reads = [("before", ctx.state(Settings, default=fallback).mode, ctx.state(S).v)]
+                async for x in stream:
+                    reads.append((f"after item {x}", ctx.state(Settings, default=fallback).mode, ctx.state(S).v))
+                    if how.startswith("abandoned"):
+                        break
+                if how.startswith("abandoned"):
+                    await stream.aclose()
+                reads.append(("after the stream", ctx.state(Settings, default=fallback).mode, ctx.state(S).v))
+                bad = [r for r in reads if r[1:] != ("consumer-fallback", 2)]
+                if bad:
+                    out.append(f"stream {how}: the consumer's lookups (Settings with its own default, its own S) gave {bad}, "
+                               "expected ('consumer-fallback', 2) throughout")
+    asyncio.run(main())
+    return out
+
+
 def main():
     sys.stdin.read()
-    p = problems() or source_kinds()
+    p = problems() or source_kinds() or consumer_state_untouched()
     if p:
         print(json.dumps(dict(reproduced=True, detail=dict(problems=p[:5]), cases_tried=1)))
     else:
